@@ -111,6 +111,23 @@ def witness_c11a(ctx):
                                   ops=[["tmask", [True, True, True]]]))
 
 
+def alias_probe(ctx, h):
+    """every key of DISTRIBUTION_MAP selects the estimator of its canonical name, for every azimuthal statistic"""
+    from hvsrpy.constants import DISTRIBUTION_MAP
+    obj = h["mirror"].obj
+    for alias, canon in DISTRIBUTION_MAP.items():
+        if alias == canon:
+            continue
+        a = hvgen.impl_stats(obj, alias)
+        b = hvgen.impl_stats(obj, canon)
+        ctx.supporting["alias_cases"] = ctx.supporting.get("alias_cases", 0) + 1
+        bad, _ = hvgen.cmp_stats(a, b, rtol=1e-12)
+        if bad:
+            ctx.violation("distribution-alias", dict(case=hvhist.history_json(h), alias=alias, canonical=canon, differing=bad,
+                                                     alias_values={k: a[k] for k in bad}, canonical_values={k: b[k] for k in bad}),
+                          seam="HvsrAzimuthal distribution argument")
+
+
 def run(ctx):
     ctx.rule = ("histories on HvsrAzimuthal objects (1-5 azimuths x 2-8 windows) with per-azimuth manual rejections, masks, FDWRA and range updates "
                 "so that acceptance counts differ between azimuths; every statistic (both distributions) after every op vs the model; "
@@ -120,8 +137,10 @@ def run(ctx):
     n = ctx.budget(120, 2000)
     hists = [hvhist.build_history(rng, i + 1, "A", int(rng.integers(1, 7))) for i in range(n)]
     hvhist.run_histories(ctx, hists, "azimuthal-statistics-equal-cheng-estimators", "accept-state-after-history", nontrivial)
-    for h in hists:
+    for i, h in enumerate(hists):
         probes(ctx, rng, h)
+        if i % 4 == 0:
+            alias_probe(ctx, h)
 
 
 def replay(case):
